@@ -5,6 +5,7 @@ neighbour check (the same table with the type replaced by plain `int` must give 
 *other* columns and identical options on the column itself); hooked-state invariant on the
 lexer's angle-bracket depth (lt_open never negative, 0 at the end of every statement).
 """
+import copy
 import re
 
 from vf.monitor.hooks import STATE
@@ -129,6 +130,8 @@ def build(type_text, pos, opt):
 
 
 def check_case(ctx, case):
+    if case.get("where") == "partition":
+        return check_partition_case(ctx, case)
     ctx.evaluated()
     tt, pos, (opt, oexp), mode = case["type_text"], case["pos"], case["option"], case["mode"]
     ddl = build(tt, pos, opt)
@@ -196,6 +199,54 @@ def check_case(ctx, case):
         ctx.violation("lt_open_nonzero_at_statement_end", dict(case, ddl=ddl), {"monitor": "M-FLAGS", "statements": STATE.lt_end_nonzero[-1:]})
 
 
+def check_partition_case(ctx, case):
+    """the type under test sits in the *second* column list of the statement: hive PARTITIONED BY (name type, ...)"""
+    ctx.evaluated()
+    tt, pos, mode = case["type_text"], case["pos"], case["mode"]
+    com = case.get("comment")
+
+    def mk(type_text):
+        pcols = ["p0 int", "p1 varchar(5)", "p2 date"]
+        pcols[pos] = "x%d %s%s" % (pos, type_text, " COMMENT 'c c'" if com else "")
+        return "CREATE TABLE s.t (c0 int, c1 string) PARTITIONED BY (" + ", ".join(pcols) + ") STORED AS ORC;\n"
+    ddl = mk(tt)
+    ctx.nontrivial_case(digest(ddl + mode + "part"))
+    r = parse(ddl, None, output_mode=mode)
+    ctx.obs["partition_list_cases"] += 1
+    if r[0] == "exc":
+        ctx.violation("exception", dict(case, ddl=ddl), {"exception": r[1], "message": r[2]})
+        return
+    if len(r[1]) != 1 or "columns" not in r[1][0]:
+        ctx.violation("table_lost", dict(case, ddl=ddl), {"result": short(r[1], 300)})
+        return
+    t = r[1][0]
+    pb = t.get("partitioned_by") or []
+    want = ["p0", "p1", "p2"]
+    want[pos] = "x%d" % pos
+    if [c.get("name") for c in pb] != want or [c.get("name") for c in t["columns"]] != ["c0", "c1"]:
+        ctx.violation("columns_merged_or_lost", dict(case, ddl=ddl), {"partitioned_by": [c.get("name") for c in pb], "columns": [c.get("name") for c in t["columns"]], "expected": want})
+        return
+    c = pb[pos]
+    if squash(c.get("type")) != squash(case["exp_type"]):
+        ctx.violation("type_string", dict(case, ddl=ddl), {"observed": c.get("type"), "expected(no white space)": squash(case["exp_type"]), "where": "partitioned_by"})
+        return
+    gs = list(c["size"]) if isinstance(c.get("size"), tuple) else c.get("size")
+    if gs != case["exp_size"]:
+        ctx.violation("size", dict(case, ddl=ddl), {"observed": c.get("size"), "expected": case["exp_size"], "where": "partitioned_by"})
+    if com and c.get("comment") != "'c c'":
+        ctx.violation("option_after_type_lost", dict(case, ddl=ddl), {"option": "comment", "observed": c.get("comment"), "where": "partitioned_by"})
+    b = parse(mk("int"), None, output_mode=mode)
+    if b[0] == "ok" and len(b[1]) == 1:
+        mine, base = copy.deepcopy(t), copy.deepcopy(b[1][0])
+        for tab in (mine, base):
+            tab["partitioned_by"][pos].pop("type", None)
+            tab["partitioned_by"][pos].pop("size", None)
+        d = ddiff(mine, base)
+        ctx.obs["differential_checks"] += 1
+        if d:
+            ctx.violation("neighbours_differ_from_plain_type", dict(case, ddl=ddl), {"diffs": [(q, short(x, 150), short(y, 150)) for q, x, y in d[:4]]})
+
+
 def angle_case(t, rng, style, pos, option, mode, gen):
     text = render_angle(t, rng, style)
     return {"gen": gen, "type_text": text, "exp_type": text, "exp_size": None, "pos": pos, "option": option, "mode": mode, "depth": depth_of(t),
@@ -213,6 +264,14 @@ def run_shard(ctx):
                     continue
                 check_case(ctx, {"gen": "sized", "type_text": text, "exp_type": et, "exp_size": es, "pos": pos, "option": option,
                                  "mode": rng.choice(MODES) if ctx.tier == "quick" else MODES[i % 4]})
+    for text, et, es in SIZED:
+        if "[" in text or "ARRAY" in text:
+            continue
+        for pos in (0, 1, 2):
+            i += 1
+            if ctx.mine(i):
+                check_case(ctx, {"gen": "sized_partition", "where": "partition", "type_text": text, "exp_type": et, "exp_size": es, "pos": pos,
+                                 "mode": MODES[i % 4], "comment": bool(i % 2)})
     shapes = list(enum_angle(2))
     ctx.obs["exhaustive_shapes_depth<=2"] = len(shapes) if ctx.shard == 0 else 0
     for t in shapes:
@@ -223,7 +282,10 @@ def run_shard(ctx):
             if not ctx.mine(i):
                 continue
             r = ctx.sub_rng("enum", i)
-            check_case(ctx, angle_case(t, r, style, r.randrange(3), r.choice(OPTIONS), r.choice(MODES), "angle_exhaustive"))
+            ac = angle_case(t, r, style, r.randrange(3), r.choice(OPTIONS), r.choice(MODES), "angle_exhaustive")
+            check_case(ctx, ac)
+            if si == 0:
+                check_case(ctx, dict(ac, where="partition", mode=r.choice(["hql", "sql", "spark_sql"]), comment=r.random() < 0.4))
     maxd = 3 if ctx.tier == "quick" else 5
     for j in range(ctx.budget(1200, 30000)):
         t = gen_angle(rng, rng.randint(1, maxd))
@@ -231,5 +293,7 @@ def run_shard(ctx):
             continue
         case = angle_case(t, rng, rng.choice(STYLES), rng.randrange(3), rng.choice(OPTIONS), rng.choice(MODES), "angle_random")
         check_case(ctx, case)
+        if j % 4 == 0:
+            check_case(ctx, dict(case, where="partition", mode=rng.choice(["hql", "sql", "spark_sql"]), comment=rng.random() < 0.4))
         if j < 2:
             ctx.sample({"ddl": build(case["type_text"], case["pos"], case["option"][0]), "mode": case["mode"]})
